@@ -18,6 +18,7 @@ import itertools
 
 from ..core.source import AnalysisError, norm, dotted, is_self_attr, walk_no_nested
 from ..core.absint import Abs, Obj, Tok, AList, Raised
+from ..core.numarr import NumArr
 from ..core.algebra import Undecided
 from ..rules import model as M
 
@@ -46,7 +47,7 @@ def eq_hook(a, b):
 
 
 TYPES = {
-    "np.ndarray": lambda v: isinstance(v, AList) and v.tag == "ndarray",
+    "np.ndarray": lambda v: isinstance(v, NumArr) or (isinstance(v, AList) and v.tag == "ndarray"),
     "Number": lambda v: (isinstance(v, Tok) and v.kind == "num") or (isinstance(v, (int, float)) and not isinstance(v, bool)),
     "ODEVariable": lambda v: isinstance(v, Obj) and v.cls == "ODEVariable",
     "sympy.Symbol": lambda v: isinstance(v, Tok) and v.kind in ("sym", "usym"),
@@ -98,7 +99,8 @@ def run_setter(setter, me, value, names, extra=None):
 
 
 def nd(items):
-    return AList(items, "ndarray", size=len(items), ravel=("method", "ndarray.ravel"))
+    """a native array: shape, ndim, size, len, indexing, ravel behave as numpy's do"""
+    return NumArr(list(items))
 
 
 def check(repo, res, tier):
@@ -242,6 +244,20 @@ def check(repo, res, tier):
            ("too-long(dict)", {"a": vals[0], "b": vals[1], "c": vals[2], "zz": 9.5}),
            ("scalar-for-3-parameters", 7.5),
            ("list-of-strings", ["x", "y", "z"])]
+    # arrays that are not flat: as many entries as parameters may be bound in flattened order (or refused); any other number of entries is refused
+    rej += [("2-d array (3,2) for 3 parameters", nd([[vals[0], 9.5], [vals[1], 8.5], [vals[2], 7.5]])),
+            ("2-d array (2,3) for 3 parameters", nd([[vals[0], vals[1], vals[2]], [9.5, 8.5, 7.5]])),
+            ("2-d array (3,3) for 3 parameters", nd([[vals[0], 9.5, 1.0], [vals[1], 8.5, 1.0], [vals[2], 7.5, 1.0]]))]
+    for tag, value in (("column (3,1)", nd([[vals[0]], [vals[1]], [vals[2]]])), ("row (1,3)", nd([[vals[0], vals[1], vals[2]]]))):
+        n_forms += 1
+        me = model(NAMES)
+        try:
+            kind, _ = run_setter(setter, me, value, NAMES)
+        except Undecided as e:
+            res.undecided("R-KV", setter, tag, "outside the modelled subset: %s" % e)
+            continue
+        res.check(kind == "raise" or observe(me) == vals, "R-KV", setter, tag, "a %s array of three values is bound in flattened order or refused" % tag,
+                  "%s -> evaluation values %s, expected %s" % (tag, observe(me), vals), node=setter.node)
     for tag, value in rej:
         n_forms += 1
         me = model(NAMES)
@@ -272,6 +288,17 @@ def check(repo, res, tier):
             continue
         res.check(kind == "return" and got == want, "R-KV", setter, tag, "%s binds the single parameter" % tag,
                   "%s -> evaluation values %s (%s)" % (tag, got, kind), node=setter.node)
+    for tag, value in (("row (1,2) for one parameter", nd([[1.25, 9.5]])), ("row (1,3) for one parameter", nd([[1.25, 9.5, 8.5]])), ("flat (2,) for one parameter", nd([1.25, 9.5]))):
+        n_forms += 1
+        me = model(one)
+        ab = Abs({}, TYPES, helper_summaries(one), me, GETTERS, eq=eq_hook)
+        try:
+            kind, _ = ab.run_function(setter.node, {setter.params[1]: value})
+        except Undecided as e:
+            res.undecided("R-REJECT", setter, tag, "outside the modelled subset: %s" % e)
+            continue
+        res.check(kind == "raise", "R-REJECT", setter, tag, "%s is rejected with an error" % tag,
+                  "%s is accepted silently: evaluation values become %s" % (tag, list(me.attrs.get("_paramValue") or [])), node=setter.node)
     # ---- distribution-valued entries: drawn value bound to its own name, distribution remembered; the draws are concrete numbers
     #      (negative, zero, positive) so that code that inspects the drawn value is still interpreted
     for draw in (-0.75, 0.0, 0.5):
